@@ -3,6 +3,7 @@ import Qryn.Read.Assembly
 import Qryn.Prom.Select
 import Qryn.Prof.Selector
 import Qryn.Prom.Stepped
+import Qryn.Prom.Downsample
 /-! Line protocol for C17.
     `c17cursor <samples> <ops>` — samples `ts:v,ts:v,…` (`-` = empty slice), ops `n` (Next), `a` (At),
     `s<t>` (Seek t) comma separated; answer: outputs in call order, `T`/`F`/`ts:v`/`!` (fault), comma separated.
@@ -19,7 +20,11 @@ import Qryn.Prom.Stepped
     `c17step <start> <end> <step> <range> <func|-> <rows>` — rows of the raw scan (`fp:val:ts,…`, ordered by
     fingerprint and time); answer: what `Select` hands out after `processHints` and the row loop, `fp=ts:v|…;…`.
     `c17stepsql <start> <end> <step> <range> <func|->` — `<hex outer SELECT of the per-step aggregation or ->
-    <hex range-filter condition or ->`. -/
+    <hex range-filter condition or ->`.
+    `c17down <start> <end> <step> <range> <func|-> <rows15>` — rows of `metrics_15s` of the selected series,
+    `fp:b:lastV:lastTs:min:max:sum:count,…`; answer: the series after the row loop and `MapResult`,
+    `fp=ts:num/den|…;…` (`unsupported` for a value column the model does not know).
+    `c17downsql <start> <end> <step> <range> <func|->` — hex of the down-sampled sample query after `WITH fp_sel`. -/
 namespace Driver.C17
 open Qryn.Read.Cursor
 
@@ -147,7 +152,34 @@ def stepSql (a b c d f : String) : Option String := do
   some ((if sh.1 then Qryn.hexOut (Qryn.Prom.Stepped.renderBucket h.start h.step) else "-") ++ " " ++
         (if sh.2 then Qryn.hexOut (Qryn.Prom.Stepped.renderFilter h) else "-"))
 
+def parseAgg (s : String) : Option Qryn.Prom.Downsample.Agg :=
+  match (s.splitOn ":").map String.toInt? with
+  | [some fp, some b, some lv, some lt, some mn, some mx, some sm, some ct] => some ⟨fp.toNat, b, lv, lt, mn, mx, sm, ct⟩
+  | _ => none
+
+def showDSeries (rows : List Qryn.Prom.Downsample.DRow) : String :=
+  -- the row loop: a new series on every change of fingerprint (rows arrive ordered by fingerprint)
+  let grp := rows.foldl (fun (acc : List (Nat × List Qryn.Prom.Downsample.DRow)) r =>
+    match acc.getLast? with
+    | some (fp, xs) => if fp = r.fp then acc.dropLast ++ [(fp, xs ++ [r])] else acc ++ [(r.fp, [r])]
+    | none => [(r.fp, [r])]) []
+  ";".intercalate (grp.map (fun g => toString g.1 ++ "=" ++
+    "|".intercalate (g.2.map (fun r => toString r.ts ++ ":" ++ toString r.num ++ "/" ++ toString r.den))))
+
+def downOp (a b c d f rows : String) : Option String := do
+  let h ← hintsOf a b c d f
+  let rs ← allSome ((parseList rows).map parseAgg)
+  match Qryn.Prom.Downsample.down h rs with
+  | none => some "unsupported"
+  | some out =>
+    -- MapResult runs per series after the row loop; it maps row by row, so mapping all rows first is the same
+    let out := Qryn.Prom.Downsample.mapResult h.func out
+    some (if out.isEmpty then "-" else showDSeries out)
+
 def handle : List String → Option String
+  | ["c17down", a, b, c, d, f, rows] => downOp a b c d f rows
+  | ["c17downsql", a, b, c, d, f] => (hintsOf a b c d f).map (fun h =>
+      Qryn.hexOut (Qryn.Prom.Downsample.renderDown "metrics_15s" 2 h))
   | ["c17step", a, b, c, d, f, rows] => stepOp a b c d f rows
   | ["c17stepsql", a, b, c, d, f] => stepSql a b c d f
   | ["c17select", rows, keys] => selectOp rows keys
